@@ -69,22 +69,32 @@ def finders(ctx: Ctx, queries: List[dict], dims, rng: random.Random) -> None:
                         best = (d, (2 * i, 2 * j, 2 * l))
         lat[v.index] = best[1]
     finder = cb.GeometricFinder(mesh)
-    for q in queries:
-        want = {tuple(v) for v in q["found"]}
-        try:
-            if q["kind"] == "sphere":
-                got = finder.find_in_sphere(point(q["c"]), scale * math.sqrt(q["r22"] / 2.0))
-            else:
-                got = finder.find_on_plane(point(q["c"]), vmul(vector(q["n"]), rng.uniform(0.3, 4.0)))
-        except Exception as err:  # pylint: disable=broad-except
-            ctx.violation(f"finder-raises:{q['kind']}:{type(err).__name__}", str(err), {"query": q})
-            continue
-        ctx.evaluated(f"{q['kind']}:{q['c']}:{q['r22']}:{q['n']}" if 0 < len(want) < (nx + 1) * (ny + 1) * (nz + 1) else None)
-        got_l = {lat[v.index] for v in got}
-        if got_l != want:
-            kind = "missed" if want - got_l else "extra"
-            ctx.violation(f"finder:{q['kind']}:{kind}", f"{q['kind']} query returned {len(got_l)} vertices, exact set has {len(want)}",
-                          {"query": {k: q[k] for k in ("kind", "c", "r22", "n")}, "missed": sorted(want - got_l), "extra": sorted(got_l - want)})
+
+    def ask(qs, where, tag):
+        for q in qs:
+            want = {tuple(v) for v in q["found"]}
+            try:
+                if q["kind"] == "sphere":
+                    got = finder.find_in_sphere(point(q["c"]), scale * math.sqrt(q["r22"] / 2.0))
+                else:
+                    got = finder.find_on_plane(point(q["c"]), vmul(vector(q["n"]), rng.uniform(0.3, 4.0)))
+            except Exception as err:  # pylint: disable=broad-except
+                ctx.violation(f"finder-raises:{q['kind']}{tag}:{type(err).__name__}", str(err), {"query": q})
+                continue
+            ctx.evaluated(f"{q['kind']}:{q['c']}:{q['r22']}:{q['n']}{tag}" if 0 < len(want) < (nx + 1) * (ny + 1) * (nz + 1) else None)
+            got_l = {where[v.index] for v in got}
+            if got_l != want:
+                kind = "missed" if want - got_l else "extra"
+                ctx.violation(f"finder:{q['kind']}{tag}:{kind}", f"{q['kind']} query{tag} returned {len(got_l)} vertices, exact set has {len(want)}",
+                              {"query": {k: q[k] for k in ("kind", "c", "r22", "n")}, "missed": sorted(want - got_l), "extra": sorted(got_l - want)})
+    ask(queries, lat, "")
+    # second use of the same finder: the vertices have moved since (every vertex to the lattice point mirrored in x, so that the
+    # exact answers are the same sets of lattice points, now occupied by other vertices) - a finder answers for the mesh as it is
+    import numpy as np
+    lat2 = {i: (2 * nx - p[0], p[1], p[2]) for i, p in lat.items()}
+    for v in mesh.vertices:
+        v.move_to(np.array(point(list(lat2[v.index]))))
+    ask(rng.sample(queries, min(40, len(queries))), lat2, ":after-move")
     # the same queries on the mesh whose first two columns are joined by a face-merged patch pair (Find.tla: twice)
     if nx >= 2:
         mm = lattice_mesh(nx, ny, nz, point, merged=True)
